@@ -1425,7 +1425,7 @@ fn self_test() {
         && crate::engine::hex(&own::hmac_sha1(&[0xaa; 80], b"Test Using Larger Than Block-Size Key - Hash Key First")) == "aa4ae5e15272d00e95705637ce8a3b55ed402112";
     if !ok {
         eprintln!("harness: C16 own MD5/CRC-32/HMAC-SHA1 self-test failed");
-        std::process::exit(2);
+        crate::engine::exit_trouble();
     }
 }
 
